@@ -106,6 +106,19 @@ def adv_pairs(off, old_off):
             if walk(b):
                 items.append(strip_cast(a))
                 return True
+        ts = strip_cast(t)
+        if ts != t:
+            # the sum computed in a wider type and narrowed at the end: the same value modulo the offset's width
+            return walk(ts)
+        if t[0] == "bin" and t[1] == "Sub" and strip_cast(t[2])[0] == "bin" and strip_cast(t[2])[1] == "Add":
+            # (old + A) - B: the position of the old end minus what is left = old + (A - B)
+            inner = strip_cast(t[2])
+            for x, a_ in ((inner[2], inner[3]), (inner[3], inner[2])):
+                n0 = len(items)
+                if walk(x):
+                    items.append(("bin", "Sub", strip_cast(a_), strip_cast(t[3])))
+                    return True
+                del items[n0:]
         return False
     if not walk(off):
         return None
